@@ -42,12 +42,14 @@ beh("f14_reset_after_fetch", ["C14"], cfg(), [E("k1"), M("resetAfterHandshake", 
                                               C("k1", chain="selfNoSan"), C("k1", chain="selfNoSan", nsig="kx"), C("k1", ck="k2", chain="selfNoSan"), D("k1")])
 for sw in (False, True):
     beh("f14_tokens" + ("w" if sw else ""), ["C14"], cfg(sw=sw), [E("k1"), M("unknownToken", "fetch"), D("k1"), M("garbageToken", "fetch"), M("unknownToken", "fetch"), D("k1")])
+beh("f14_shapes", ["C14"], cfg(), [E("k1"), M("keyTrunc", "fetch"), M("keyHeaderOnly", "fetch"), M("keyLong", "fetch"), D("k1"), dict(C("k1", kind="base"), walpn=True), D("k1"),
+                                   dict(C("k1", kind="base"), walpn=True), dict(C("k1"), xp="afterPref"), D("k1")])
 beh("f14_aborts", ["C14"], cfg(), [E("k1"), M("clientAlert", "auth"), D("k1"), M("clientAlert", "fetch"), M("resetMidHello", "auth"), M("resetAfterHello", "fetch"), M("clientAlert", "pref"), D("k1"),
                                    M("rawSslv2"), M("rawOversizeRecord"), M("rawHttp"), M("rawBadVersion"), D("k1")])
 beh("f02_nobase", ["C02"], cfg(base=False), [E("k1"), C("k1", kind="base"), C("k1"), C("k1", kind="fetch")])
 beh("f16_meta", ["C16"], cfg(), [E("k1"), D("k1", "none", "none"), D("k1", "one", "empty"), D("k1", "many", "nested"), D("k1", "dups", "large"), D("k1", "prefixlike", "nested"),
                                  C("k1", stt="ok"), C("k1", stt="none", pref="none")])
-beh("f16_names_and_overrides", ["C16"], cfg(), [E("k1"), D("k1", "containsPref", "none"), D("k1", "containsPref", "nested"), D("k1", "none", "overriddenNil"), D("k1", "many", "overriddenNil"), D("k1", "one", "nested")])
+beh("f16_names_and_overrides", ["C16"], cfg(), [E("k1"), D("k1", "none", "odd"), D("k1", "one", "odd"), D("k1", "containsPref", "none"), D("k1", "containsPref", "nested"), D("k1", "none", "overriddenNil"), D("k1", "many", "overriddenNil"), D("k1", "one", "nested")])
 beh("f16_orders", ["C16", "C02"], cfg(), [E("k1")] + [dict(C("k1", stt=st, pref=pf), xp=xp) for xp in ("mid", "afterPref", "before", "split") for st in ("none", "ok") for pf in ("cur", "none")] + [D("k1", "many", "nested")])
 beh("f16_listener_state", ["C16"], cfg(lstate=True), [E("k1"), D("k1", "none", "none"), D("k1", "one", "empty"), D("k1", "many", "nested"), C("k1", stt="none"), C("k1", stt="ok"), C("k1", stt="unsigned"),
                                                     NN("k2"), D("k2"), AP("k2"), D("k2", "none", "none"), D("k2", "one", "large")])
